@@ -408,6 +408,11 @@ pub fn run_leaf(env: &mut Env, leaf: &Leaf, mon: &Monitors) {
             what,
             case: leaf_case(leaf, mon),
         });
+    } else if leaf.idx.iter().sum::<usize>() % 97 == 5 {
+        env.stats.sample(|| {
+            json!({"engine": "seq", "policy": mon.policy.unwrap_or(PolicyCfg::Default).name(), "seed": leaf.seed.name,
+                   "seed_ops": leaf.seed.ops.len(), "ops": leaf.ops.iter().map(|o| o.short()).collect::<Vec<_>>(), "verdict": "every monitor held after every op"})
+        });
     }
 }
 
